@@ -306,6 +306,40 @@ def expand_conditional_callees(tree) -> int:
     return count
 
 
+def split_conditional_returns(tree) -> int:
+    """canonical form: `return a if c else b` is analysed as `if c: return a` / `else: return b` (and nested ones likewise)"""
+    count = 0
+
+    def split(st):
+        nonlocal count
+        if isinstance(st, ast.Return) and isinstance(st.value, ast.IfExp):
+            v = st.value
+            a = ast.copy_location(ast.Return(value=v.body), st)
+            b = ast.copy_location(ast.Return(value=v.orelse), st)
+            new = ast.If(test=v.test, body=split(a), orelse=split(b))
+            ast.copy_location(new, st)
+            count += 1
+            return [new]
+        return [st]
+    for fn in ast.walk(tree):
+        if not isinstance(fn, (ast.FunctionDef, ast.AsyncFunctionDef)):
+            continue
+        stack = [fn]
+        while stack:
+            node = stack.pop()
+            for blk in _blocks(node):
+                i = 0
+                while i < len(blk):
+                    r = split(blk[i])
+                    if r[0] is not blk[i]:
+                        blk[i:i + 1] = r
+                    i += 1
+                for st in blk:
+                    if not isinstance(st, (ast.FunctionDef, ast.AsyncFunctionDef, ast.ClassDef)):
+                        stack.append(st)
+    return count
+
+
 def inline_return_temporaries(tree) -> int:
     """canonical form, applied to every function before analysis: `tmp = <expr>` immediately followed by `return tmp`,
     where tmp is a local that is bound nowhere else and read nowhere else, is the same program as `return <expr>`.
@@ -385,6 +419,7 @@ class ModuleInfo:
         self.propagated_aliases = propagate_attribute_aliases(self.tree)
         self.expanded_callees = expand_conditional_callees(self.tree)
         self.inlined_returns = inline_return_temporaries(self.tree)
+        self.split_returns = split_conditional_returns(self.tree)
         self.functions: Dict[str, FuncInfo] = {}
         self.classes: Dict[str, ClassInfo] = {}
         self.assigns: Dict[str, ast.AST] = {}
@@ -479,6 +514,7 @@ class Repo:
             for m in self.modules.values():
                 propagate_attribute_aliases(m.tree)
                 inline_return_temporaries(m.tree)
+                split_conditional_returns(m.tree)
 
     # ---- anchors ---------------------------------------------------------------------------
     def module(self, name: str) -> ModuleInfo:
